@@ -32,6 +32,7 @@ type batchInfo struct {
 	bs     ssa.Value
 	names  map[string]string // leaf renaming for canonical keys
 	okCell, retCell, validCell *ssa.Alloc
+	validIsN bool // the validity vector is make([]bool, len(publicKeys)), assigned once
 	model  *pt.Model
 }
 
@@ -178,6 +179,30 @@ func resolveBatch(r *rep.Report, p *load.Program, rl *roles.Roles) *batchInfo {
 	if bi.okCell == nil || bi.retCell == nil || bi.validCell == nil {
 		return fail("result cells", "failBatch does not capture the (summary int, validity vector, fast-path flag) cells")
 	}
+	// the validity vector is assigned exactly once, a make([]bool, len(publicKeys))
+	{
+		var stores []*ssa.Store
+		for _, ref := range *bi.validCell.Referrers() {
+			if st, ok := ref.(*ssa.Store); ok && st.Addr == bi.validCell {
+				stores = append(stores, st)
+			}
+		}
+		if len(stores) == 1 {
+			if ms, ok := stores[0].Val.(*ssa.MakeSlice); ok {
+				ln := ms.Len
+				if cv, ok := ln.(*ssa.Convert); ok {
+					ln = cv.X
+				}
+				if c, ok := ln.(*ssa.Call); ok {
+					if bn, ok := c.Common().Value.(*ssa.Builtin); ok && bn.Name() == "len" && c.Common().Args[0] == fn.Params[1] {
+						bi.validIsN = true
+					}
+				}
+			}
+		}
+		r.Check(bi.validIsN, "B0-structure", cfg, "VerifyBatch: the validity vector is make([]bool, len(publicKeys)), assigned once", ssau.InstrPos(p, bi.validCell), "one store of a make of length len(publicKeys)",
+			"the validity vector is not a single make([]bool, len(publicKeys))")
+	}
 	cellName := func(a *ssa.Alloc) string {
 		if a.Comment != "" {
 			return "local:" + a.Comment
@@ -220,58 +245,180 @@ func (bi *batchInfo) stopFn(l *b.Loop) func(*ssa.BasicBlock) bool {
 	}
 }
 
-func (bi *batchInfo) inductionLeaf(l *b.Loop) (string, int64, ssa.Value, bool) {
-	for _, in := range l.Header.Instrs {
-		ph, ok := in.(*ssa.Phi)
-		if !ok {
-			continue
-		}
-		var init int64 = -1
-		latchOK := false
-		for ei, e := range ph.Edges {
-			if l.Blocks[l.Header.Preds[ei]] {
-				if bo, ok := e.(*ssa.BinOp); ok && bo.Op == token.ADD && bo.X == ph {
-					if n, ok := constInt(bo.Y); ok && n == 1 {
-						latchOK = true
-					}
-				}
-			} else if n, ok := constInt(e); ok {
-				init = n
-			}
-		}
-		if latchOK && init >= 0 && ph.Type().String() == "int" {
-			// bound from the header condition
-			var bound ssa.Value
-			if ifi, ok := l.Header.Instrs[len(l.Header.Instrs)-1].(*ssa.If); ok {
-				if bo, ok := ifi.Cond.(*ssa.BinOp); ok && bo.Op == token.LSS && bo.X == ph {
-					bound = bo.Y
-				}
-			}
-			return pt.PhiName(ph), init, bound, true
-		}
-	}
-	return "", 0, nil, false
+// loopShape is the iteration space of a counted loop: the values taken by the counter expression C = ph + adj are
+// lower, lower+1, …, bound-1 (all affine over the canonical leaves off, bs, n). Iteration number t = C - lower.
+type loopShape struct {
+	phLeaf       string
+	adj          int
+	lower, bound b.Affine
+	count        b.Affine // bound - lower
+	subst        b.Affine // what the phi leaf stands for in terms of the iteration number "i": i + lower - adj
 }
 
-// region enumerates one iteration of loop l with canonical indices.
-func (bi *batchInfo) region(r *rep.Report, l *b.Loop, role string) ([]*rpath, string) {
-	cfg := bi.p.Cfg.Name
-	iLeaf, _, _, ok := bi.inductionLeaf(l)
+// ssaAffine renders an int-typed SSA value as an affine form over the canonical leaves (off, bs, n, or a phi name).
+func (bi *batchInfo) ssaAffine(v ssa.Value, depth int) b.Affine {
+	bad := b.Affine{}
+	if depth > 8 {
+		return bad
+	}
+	mk := func(c int, leaf string) b.Affine {
+		a := b.Affine{Const: c, Coef: map[string]int{}, OK: true}
+		if leaf != "" {
+			a.Coef[leaf] = 1
+		}
+		return a
+	}
+	switch x := v.(type) {
+	case *ssa.Const:
+		if n, ok := constInt(x); ok {
+			return mk(int(n), "")
+		}
+	case *ssa.Phi:
+		switch {
+		case x == bi.offPhi:
+			return mk(0, "off")
+		case x == bi.bs:
+			return mk(0, "bs")
+		case x == bi.numPhi:
+			// remaining = n - offset: both counters move by the chunk size in lockstep (rule B0 chunk counters)
+			a := mk(0, "n")
+			a.Coef["off"] = -1
+			return a
+		}
+		return mk(0, pt.PhiName(x))
+	case *ssa.BinOp:
+		l, r := bi.ssaAffine(x.X, depth+1), bi.ssaAffine(x.Y, depth+1)
+		switch x.Op {
+		case token.ADD:
+			return l.AddScaled(r, 1)
+		case token.SUB:
+			return l.AddScaled(r, -1)
+		case token.MUL:
+			if l.OK && len(l.Coef) == 0 {
+				return mk(0, "").AddScaled(r, l.Const)
+			}
+			if r.OK && len(r.Coef) == 0 {
+				return mk(0, "").AddScaled(l, r.Const)
+			}
+		}
+	case *ssa.Convert:
+		return bi.ssaAffine(x.X, depth+1)
+	case *ssa.Call:
+		bn, ok := x.Common().Value.(*ssa.Builtin)
+		if !ok || bn.Name() != "len" {
+			return bad
+		}
+		switch a := x.Common().Args[0].(type) {
+		case *ssa.Parameter:
+			if a == bi.fn.Params[1] {
+				return mk(0, "n")
+			}
+		case *ssa.UnOp:
+			if a.Op == token.MUL && a.X == bi.validCell && bi.validIsN {
+				return mk(0, "n")
+			}
+		case *ssa.Slice:
+			if a.High != nil {
+				hi := bi.ssaAffine(a.High, depth+1)
+				if a.Low == nil {
+					return hi
+				}
+				return hi.AddScaled(bi.ssaAffine(a.Low, depth+1), -1)
+			}
+		}
+	}
+	return bad
+}
+
+// shape recognises `for c := lower; c < bound; c++` and go/ssa's range-over-slice form (phi from -1, index phi+1 < len).
+func (bi *batchInfo) shape(l *b.Loop) (*loopShape, bool) {
+	ifi, ok := l.Header.Instrs[len(l.Header.Instrs)-1].(*ssa.If)
 	if !ok {
-		r.Fail("B0-structure", cfg, "loop "+role+" has a unit-step counter", bi.pos(l.Header.Instrs[0].Pos()), "batch:loop:"+role, "cannot identify the loop counter (unrecognised shape)")
-		return nil, ""
+		return nil, false
+	}
+	cmp, ok := ifi.Cond.(*ssa.BinOp)
+	if !ok || cmp.Op != token.LSS || len(l.Header.Succs) != 2 || !l.Blocks[l.Header.Succs[0]] {
+		return nil, false
+	}
+	for _, in := range l.Header.Instrs {
+		ph, ok := in.(*ssa.Phi)
+		if !ok || ph.Type().String() != "int" {
+			continue
+		}
+		var initV ssa.Value
+		var step *ssa.BinOp
+		okPhi := true
+		for ei, e := range ph.Edges {
+			if l.Blocks[l.Header.Preds[ei]] {
+				bo, ok := e.(*ssa.BinOp)
+				if !ok || bo.Op != token.ADD {
+					okPhi = false
+					break
+				}
+				one, other := bo.Y, bo.X
+				if _, isC := bo.X.(*ssa.Const); isC {
+					one, other = bo.X, bo.Y
+				}
+				if n, ok := constInt(one); !ok || n != 1 || other != ph || (step != nil && step != bo) {
+					okPhi = false
+					break
+				}
+				step = bo
+			} else {
+				if initV != nil && initV != e {
+					okPhi = false
+					break
+				}
+				initV = e
+			}
+		}
+		if !okPhi || step == nil || initV == nil {
+			continue
+		}
+		sh := &loopShape{phLeaf: pt.PhiName(ph)}
+		switch cmp.X {
+		case ph:
+		case ssa.Value(step):
+			sh.adj = 1
+		default:
+			continue
+		}
+		init := bi.ssaAffine(initV, 0)
+		bound := bi.ssaAffine(cmp.Y, 0)
+		if !init.OK || !bound.OK {
+			continue
+		}
+		one := b.Affine{Const: sh.adj, Coef: map[string]int{}, OK: true}
+		sh.lower = init.AddScaled(one, 1)
+		sh.bound = bound
+		sh.count = bound.AddScaled(sh.lower, -1)
+		// ph = C - adj = i + lower - adj = i + init
+		sh.subst = init.AddScaled(b.Affine{Coef: map[string]int{"i": 1}, OK: true}, 1)
+		return sh, true
+	}
+	return nil, false
+}
+
+// region enumerates one iteration of loop l with canonical indices: the iteration number is "i" (0-based whatever the
+// source counter starts at), the entry index offset+i is "@e".
+func (bi *batchInfo) region(r *rep.Report, l *b.Loop, role string) ([]*rpath, *loopShape) {
+	cfg := bi.p.Cfg.Name
+	sh, ok := bi.shape(l)
+	if !ok {
+		r.Fail("B0-structure", cfg, "loop "+role+" has a unit-step counter", bi.pos(l.Header.Instrs[0].Pos()), "batch:loop:"+role, "cannot identify the loop counter and its affine bounds (unrecognised shape)")
+		return nil, nil
 	}
 	paths, err := pt.EnumerateRegion(bi.fn, bi.model, l.Header, bi.stopFn(l))
 	if err != nil {
 		r.Fail("path-engine", cfg, "loop "+role+": paths enumerate", "", "batch:paths:"+role, err.Error())
-		return nil, ""
+		return nil, nil
 	}
-	names := map[string]string{iLeaf: "i"}
+	names := map[string]string{}
 	for k, v := range bi.names {
 		names[k] = v
 	}
-	offLeaf := pt.PhiName(bi.offPhi)
-	entry := func(a b.Affine) bool { return a.Is(0, iLeaf, offLeaf) }
+	subst := bi.substFor(sh)
+	entry := func(a b.Affine) bool { return a.Is(0, "i", "off") }
 	var out []*rpath
 	var unrec []string
 	for _, pa := range paths {
@@ -286,21 +433,25 @@ func (bi *batchInfo) region(r *rep.Report, l *b.Loop, role string) ([]*rpath, st
 		}
 		for _, a := range pa.Atoms {
 			na := a
-			na.T = b.NormIdx(a.T, names, entry)
+			na.T = b.NormIdxS(a.T, names, subst, entry)
 			na.Key = na.T.String()
+			if a.Block == l.Header {
+				na.T = pt.Leaf(moreK)
+				na.Key = moreK
+			}
 			rp.atoms = append(rp.atoms, na)
 		}
 		for _, e := range pa.Events {
 			ne := e
 			ne.Args = nil
 			for _, x := range e.Args {
-				ne.Args = append(ne.Args, b.NormIdx(x, names, entry))
+				ne.Args = append(ne.Args, b.NormIdxS(x, names, subst, entry))
 			}
 			ne.Addrs = nil
 			for _, x := range e.Addrs {
-				ne.Addrs = append(ne.Addrs, b.NormIdx(x, names, entry))
+				ne.Addrs = append(ne.Addrs, b.NormIdxS(x, names, subst, entry))
 			}
-			ne.Result = b.NormIdx(e.Result, names, entry)
+			ne.Result = b.NormIdxS(e.Result, names, subst, entry)
 			rp.events = append(rp.events, ne)
 		}
 		switch {
@@ -323,7 +474,21 @@ func (bi *batchInfo) region(r *rep.Report, l *b.Loop, role string) ([]*rpath, st
 		r.Fail("path-engine", cfg, "loop "+role+": every construct is modelled", bi.pos(l.Header.Instrs[0].Pos()), "batch:unmodelled:"+role, "unmodelled constructs: "+strings.Join(unrec, "; "))
 	}
 	r.Count("region-paths", len(out))
-	return out, iLeaf
+	return out, sh
+}
+
+// moreK is the canonical key of a loop's continuation test.
+const moreK = "more-iterations"
+
+// substFor: what the SSA leaves stand for in canonical terms inside a loop of the given shape.
+func (bi *batchInfo) substFor(sh *loopShape) map[string]b.Affine {
+	subst := map[string]b.Affine{}
+	if sh != nil {
+		subst[sh.phLeaf] = sh.subst
+	}
+	nMinusOff := b.Affine{Coef: map[string]int{"n": 1, "off": -1}, OK: true}
+	subst[pt.PhiName(bi.numPhi)] = nMinusOff
+	return subst
 }
 
 // marks classifies the result-vector / summary / fast-path-flag stores of a region path.
@@ -581,31 +746,32 @@ func ruleBatchAll(c *Ctx, r *rep.Report, p *load.Program, rl *roles.Roles, fl *f
 	}
 	r.OK("B0-structure", cfg, "VerifyBatch: loop roles", "expand-r, S, sum, challenge, points, fallback inside the chunk loop; init and remainder loops outside")
 
-	// ---- bounds of the inner loops: i from 0 (sum: 1) while i < batchSize; remainder: i < remaining
-	for ro, l := range bi.inner {
-		_, init, bound, ok := bi.inductionLeaf(l)
-		wantInit := int64(0)
-		if ro == "sum" {
-			wantInit = 1
-		}
-		r.Check(ok && init == wantInit && bound == bi.bs, "B0-loop-bounds", cfg, ro+" loop runs i = "+fmt.Sprint(wantInit)+" .. batchSize-1", bi.pos(l.Header.Instrs[0].Pos()),
-			"unit step, bound is the chunk size", fmt.Sprintf("loop %s: init=%d (want %d), bound is batchSize: %v", ro, init, wantInit, bound == bi.bs))
-	}
-	{
-		_, init, bound, ok := bi.inductionLeaf(bi.rem)
-		r.Check(ok && init == 0 && bound == bi.numPhi, "B0-loop-bounds", cfg, "remainder loop runs i = 0 .. remaining-1", bi.pos(bi.rem.Header.Instrs[0].Pos()), "unit step, bound is the remaining count", "remainder loop bounds are not 0..remaining")
-	}
-
-	// ---- per-loop regions
+	// ---- per-loop regions and iteration spaces: every inner loop runs exactly batchSize iterations (sum: batchSize-1,
+	// over slots 1..batchSize-1), the remainder loop exactly the remaining n-offset entries
 	reg := map[string][]*rpath{}
+	shapes := map[string]*loopShape{}
 	for ro, l := range bi.inner {
-		reg[ro], _ = bi.region(r, l, ro)
+		reg[ro], shapes[ro] = bi.region(r, l, ro)
 	}
-	reg["remainder"], _ = bi.region(r, bi.rem, "remainder")
+	reg["remainder"], shapes["remainder"] = bi.region(r, bi.rem, "remainder")
 	for ro, rps := range reg {
 		if rps == nil {
 			return
 		}
+		sh := shapes[ro]
+		want := b.Affine{Coef: map[string]int{"bs": 1}, OK: true}
+		l := bi.rem
+		switch ro {
+		case "sum":
+			want.Const = -1
+			l = bi.inner[ro]
+		case "remainder":
+			want = b.Affine{Coef: map[string]int{"n": 1, "off": -1}, OK: true}
+		default:
+			l = bi.inner[ro]
+		}
+		r.Check(sh.count.Equal(want), "B0-loop-bounds", cfg, ro+" loop runs exactly "+want.String()+" iterations", bi.pos(l.Header.Instrs[0].Pos()),
+			"unit step from "+sh.lower.String()+" while < "+sh.bound.String(), fmt.Sprintf("loop %s runs from %s while < %s: %s iterations, want %s", ro, sh.lower.String(), sh.bound.String(), sh.count.String(), want.String()))
 		switch ro {
 		case "expand-r", "sum":
 		default:
@@ -618,7 +784,7 @@ func ruleBatchAll(c *Ctx, r *rep.Report, p *load.Program, rl *roles.Roles, fl *f
 	bi.slot(r, reg["expand-r"], "expand-r", "modm.Expand", []string{slotAddr(scal, iPlus("bs+i+1")), "slice(fld(local:batch,r),aff{16*i},aff{16*i+16})"}, "rScalars[i] = Expand(r[16i:16i+16]) lives in scalars[batchSize+1+i]")
 	bi.slot(r, reg["S"], "S", "modm.Expand", []string{slotAddr(scal, iPlus("i")), "*"}, "scalars[i] = ModL(S_i)")
 	bi.slot(r, reg["S"], "S", "modm.Mul", []string{slotAddr(scal, iPlus("i")), slotAddr(scal, iPlus("i")), slotAddr(scal, iPlus("bs+i+1"))}, "scalars[i] *= r_i (the randomiser in scalars[batchSize+1+i])")
-	bi.slot(r, reg["sum"], "sum", "modm.Add", []string{"addr(" + scal + "[#0])", "addr(" + scal + "[#0])", slotAddr(scal, iPlus("i"))}, "scalars[0] += scalars[i]")
+	bi.slot(r, reg["sum"], "sum", "modm.Add", []string{"addr(" + scal + "[#0])", "addr(" + scal + "[#0])", slotAddr(scal, iPlus("i+1"))}, "scalars[0] += scalars[1+i] for i = 0 .. batchSize-2")
 	bi.slot(r, reg["challenge"], "challenge", "modm.Expand", []string{slotAddr(scal, iPlus("i+1")), "slice(local:hash,#0,)"}, "scalars[i+1] = ModL(challenge hash)")
 	bi.slot(r, reg["challenge"], "challenge", "modm.Mul", []string{slotAddr(scal, iPlus("i+1")), slotAddr(scal, iPlus("i+1")), slotAddr(scal, iPlus("bs+i+1"))}, "scalars[i+1] *= r_i (same randomiser as S_i and R_i)")
 	// S loop: Expand source is sigs[i+offset][32:]
@@ -652,7 +818,7 @@ func ruleBatchAll(c *Ctx, r *rep.Report, p *load.Program, rl *roles.Roles, fl *f
 
 	// ---- B4/B5/B6: per-loop decision structure (guard agreement with the single verifier, fail/mark discipline)
 	const brk = "break+ret+vfalse+okfalse"
-	ltK := "lt(i,bs)"
+	ltK := moreK
 	zip := "fld(P4,ZIP215Verify)"
 	{ // S loop
 		lenK, minK := "len(P3[@e])", "scMin(P3[@e][#32:])"
@@ -688,7 +854,9 @@ func ruleBatchAll(c *Ctx, r *rep.Report, p *load.Program, rl *roles.Roles, fl *f
 		wantPure := fmt.Sprintf("eq(#%d,res(checkHash(f,P2[@e],fld(P4,Hash)),#0))", fl.pure)
 		r.Check(errK == wantErr && pureK == wantPure, "B6-guards-challenge", cfg, "challenge loop: variant selection is checkHash(f, messages[i+offset], opts.HashFunc()) per entry", "", wantErr,
 			fmt.Sprintf("per-entry digest check / purity test are %q / %q, want %q / %q", errK, pureK, wantErr, wantPure))
-		worlds := g.Product(map[string][]int{lenK: {0, 31, 32, 33}}, []string{ltK, zip, smK, wantErr, wantPure}, nil)
+		// a defensive re-check of the signature length is decided already: the S loop completed without a break, so
+		// every entry of the chunk has len(sigs[e]) == 64 (rules B0 loop bounds, B3 phase order and flag dominance)
+		worlds := g.Product(map[string][]int{lenK: {0, 31, 32, 33}, "len(P3[@e])": {64}}, []string{ltK, zip, smK, wantErr, wantPure}, nil)
 		runG(r, p, "B6-guards-challenge", "batch challenge loop", bi.fn, asPaths(reg["challenge"]), worlds, func(w *g.World) g.Terminal {
 			switch {
 			case !w.Bools[ltK]:
@@ -746,7 +914,8 @@ func ruleBatchAll(c *Ctx, r *rep.Report, p *load.Program, rl *roles.Roles, fl *f
 				}
 			}
 		}
-		worlds := g.Product(nil, []string{ltK, zip, decA, decR, smR}, func(w *g.World) bool { return w.Bools[decR] || w.Bools[smR] })
+		// lengths were decided by the S and challenge loops (see above): only the nominal values are feasible here
+		worlds := g.Product(map[string][]int{"len(P1[@e])": {32}, "len(P3[@e])": {64}}, []string{ltK, zip, decA, decR, smR}, func(w *g.World) bool { return w.Bools[decR] || w.Bools[smR] })
 		runG(r, p, "B6-guards-points", "batch points loop", bi.fn, asPaths(reg["points"]), worlds, func(w *g.World) g.Terminal {
 			switch {
 			case !w.Bools[ltK]:
@@ -1028,12 +1197,12 @@ func (bi *batchInfo) chunkLevel(r *rep.Report, fl *flags) {
 				if !ok {
 					continue
 				}
-				if n, ok := constInt(ia.Index); ok && n == 0 && blk.Dominates(bi.inner["points"].Header) {
+				if n, ok := constInt(ia.Index); ok && n == 0 && msm != nil && blk.Dominates(msm.Block()) && (blk != msm.Block() || instrIndex(st) < instrIndex(msm)) {
 					found = true
 				}
 			}
 		}
-		r.Check(found, "B8-scratch-redefined", cfg, "points[0] = base point is (re)written in every chunk before the point phase", "", "store of ge25519.Basepoint to points[0] in the chunk body dominating the point loop",
+		r.Check(found, "B8-scratch-redefined", cfg, "points[0] = base point is (re)written in every chunk before the point phase", "", "store of ge25519.Basepoint to points[0] in the chunk body dominating the multi-scalar call",
 			"points[0] is not re-initialised with the base point inside the chunk loop (the multi-scalar routine overwrites it)")
 	}
 	// the flag cell itself is created (true) per chunk
@@ -1052,6 +1221,7 @@ func (bi *batchInfo) chunkLevel(r *rep.Report, fl *flags) {
 	// scratch heap is a local of the call (C15 also checks this through M1)
 	// --- prologue / epilogue: whole-function paths are too many; check returns structurally
 	nret := 0
+	kinds := map[string]int{}
 	for _, blk := range fn.Blocks {
 		ret, ok := blk.Instrs[len(blk.Instrs)-1].(*ssa.Return)
 		if !ok {
@@ -1077,13 +1247,33 @@ func (bi *batchInfo) chunkLevel(r *rep.Report, fl *flags) {
 		switch {
 		case rs[0] == "eq(#0,local:ret)" && rs[1] == "deref(local:valid)" && rs[2] == "nil":
 			okR = true
+			kinds["result"]++
+		case rs[0] == "#true" && rs[1] == "deref(local:valid)" && rs[2] == "nil":
+			// an early (true, valid, nil) is the same answer only for the empty batch: require a dominating n == 0 test
+			if bi.emptyGuard(blk) {
+				okR = true
+				kinds["empty-batch"]++
+			}
 		case rs[0] == "#false" && rs[1] == "nil" && rs[2] != "nil":
 			// error returns: unwrap's error, the count mismatch, the entropy failure
-			okR = rs[2] == "res(unwrap(P4),#2)" || rs[2] == "G:ed25519.errArgCounts" || strings.HasPrefix(rs[2], "res(ReadFull(") || strings.HasPrefix(rs[2], "PHI:err") || strings.HasPrefix(rs[2], "local:err")
+			switch {
+			case rs[2] == "res(unwrap(P4),#2)":
+				okR = true
+				kinds["options-error"]++
+			case rs[2] == "G:ed25519.errArgCounts":
+				okR = true
+				kinds["count-mismatch"]++
+			case strings.HasPrefix(rs[2], "res(ReadFull(") || strings.HasPrefix(rs[2], "PHI:err") || strings.HasPrefix(rs[2], "local:err"):
+				okR = true
+				kinds["entropy-error"]++
+			}
 		}
 		r.Check(okR, "B5-returns", cfg, "VerifyBatch returns (ret==0, valid, nil) or (false, nil, err) for the three documented error sources", ssau.InstrPos(p, ret), got, "unexpected return "+got)
 	}
-	r.Check(nret == 4, "B5-returns", cfg, "VerifyBatch has exactly the four documented exits (unwrap error, count mismatch, entropy error, result)", "", "4 returns", fmt.Sprintf("%d return sites", nret))
+	for _, k := range []string{"result", "options-error", "count-mismatch", "entropy-error"} {
+		r.Check(kinds[k] > 0, "B5-returns", cfg, "VerifyBatch has the documented exit: "+k, "", fmt.Sprintf("%d return sites", kinds[k]), "no return site of kind "+k+" (the documented exits are: options error, count mismatch, entropy error, result)")
+	}
+	_ = nret
 	// result vector: make([]bool, num) all set true by the init loop
 	if bi.initL != nil {
 		rps, _ := bi.regionTop(r, bi.initL)
@@ -1098,6 +1288,48 @@ func (bi *batchInfo) chunkLevel(r *rep.Report, fl *flags) {
 		r.Check(okI, "B5-returns", cfg, "the validity vector starts all-true", "", "init loop stores true to every element", "init loop does not set the validity vector to true")
 	}
 	_ = fl
+}
+
+// emptyGuard: blk is reached only through the true branch of a test n == 0 (n = len(publicKeys)).
+func (bi *batchInfo) emptyGuard(blk *ssa.BasicBlock) bool {
+	for _, c := range bi.fn.Blocks {
+		ifi, ok := c.Instrs[len(c.Instrs)-1].(*ssa.If)
+		if !ok {
+			continue
+		}
+		cmp, ok := ifi.Cond.(*ssa.BinOp)
+		if !ok || (cmp.Op != token.EQL && cmp.Op != token.NEQ) {
+			continue
+		}
+		x, y := cmp.X, cmp.Y
+		if _, isC := x.(*ssa.Const); isC {
+			x, y = y, x
+		}
+		if n, ok := constInt(y); !ok || n != 0 {
+			continue
+		}
+		a := bi.ssaAffine(x, 0)
+		if !a.Is(0, "n") {
+			continue
+		}
+		succ := c.Succs[0]
+		if cmp.Op == token.NEQ {
+			succ = c.Succs[1]
+		}
+		if len(succ.Preds) == 1 && succ.Dominates(blk) {
+			return true
+		}
+	}
+	return false
+}
+
+func instrIndex(in ssa.Instruction) int {
+	for i, x := range in.Block().Instrs {
+		if x == in {
+			return i
+		}
+	}
+	return -1
 }
 
 func (bi *batchInfo) regionTop(r *rep.Report, l *b.Loop) ([]*rpath, string) {
